@@ -463,6 +463,11 @@ def dataset_level(ctx, reqs, pend, n_sets):
                 if why:
                     ctx.violate(f"{'MazeDataset' if members is None else 'MazeDatasetCollection (members of ' + str(members) + ' mazes)'}.as_tokens(limit={limit}, join={join}) on {k} mazes ({flavour}/{mode}): {why}", case); return
                 reqs.append(dict(op="C07.slice", n=k, limit=limit)); pend.append(("slice", dict(n=k, limit=limit), list(range(k))[:limit], None))
+                try:      # the result belongs to the caller: it is emptied in place before the next call on the same dataset and tokenizer
+                    for o in out:
+                        if isinstance(o, list): o.clear()
+                    out.clear()
+                except Exception: pass
 
 
 # ----- entry points -----------------------------------------------------------------------------------------------------------
